@@ -127,6 +127,26 @@ func hevcCheckSlice(c hevcSliceCase) *harness.Fail {
 		return harness.Failf("C15|hevc.SliceHeader.Size|differs from the bytes the header occupies",
 			"Size = %d, the header occupies %d bytes (%s)", got.Size, hdrBytes, ctx)
 	}
+	// the same header once more on the same maps: parsing a slice is a read of the parameter sets, so the second
+	// result (and with it every later slice that uses these sets) is the same
+	again, err := hevc.ParseSliceHeader(nal, spsMap, ppsMap)
+	if err != nil {
+		return harness.Failf("C15|hevc.ParseSliceHeader|error on a valid slice segment header", "second parse with the same parameter set maps: %v (%s)", err, ctx)
+	}
+	if p, w, g := hevcDiff(&want, again, o); p != "" {
+		f := hevcFieldFail("SliceHeader", p, w, g, "second parse with the same parameter set maps: "+ctx)
+		return f
+	}
+	// and the parameter sets themselves are what a fresh parse gives
+	freshSPS, f := hevcParseSPSs(c.SPS, c.RelaxInterRPS)
+	if f != nil {
+		return f
+	}
+	for id, sp := range freshSPS {
+		if p, w, g := hevcDiff(sp, spsMap[id], nil); p != "" {
+			return harness.Failf("C15|hevc.ParseSliceHeader|parameter set changed by parsing a slice header", "SPS %d field %s: %s after the slice was parsed, %s in a fresh parse (%s)", id, p, g, w, ctx)
+		}
+	}
 	return nil
 }
 
